@@ -1,2 +1,3 @@
 pub mod expand;
 pub mod fnmatch;
+pub mod interp;
